@@ -7,7 +7,9 @@ TLC design level : SampleCoding.tla — GrpcCode (documented table), HttpSample 
                    depth_off, no_empty).
 M2 (spec->code)  : SampleCodingGen.tla writes the case space (all HTTP statuses 200..599, refused / reset /
                    timeout / truncated body, all gRPC codes 0..17 + 99 and client-side Unavailable /
-                   DeadlineExceeded, tag settings x URI shapes, scenario shots with failing steps); `vdrive samplecoding -mode cases` plays each against
+                   DeadlineExceeded, tag settings x URI shapes, scenario shots over step variants:
+                   exchange outcomes, REAL pre/postprocessors that pass or fail (assert, extractor,
+                   missing variable, unrenderable template), sleeps); `vdrive samplecoding -mode cases` plays each against
                    in-process HTTP/HTTPS/gRPC targets with the REAL providers and guns (registered
                    factories); TraceSampleCoding.tla compares every reported sample with Expected(c).
 M1 (code->spec)  : the same log is the begin/report/end trace of a recording gun wrapper + aggregator mock,
@@ -59,9 +61,13 @@ def _case_sig(c):
     if k in ("grpcbad", "grpcfail"):
         return "kind=%s what=%s" % (k, c["what"])
     if k == "httpscn":
-        return "kind=httpscn steps=%s" % ",".join(s["out"]["kind"] for s in c["steps"])
+        return "kind=httpscn steps=%s" % ",".join(
+            s["out"]["kind"] + ("" if s.get("pre", "none") in ("none", "ok") else "+pre:" + s["pre"]) +
+            ("" if s.get("post", "none") in ("none", "pass") else "+post:" + s["post"]) for s in c["steps"])
     if k == "grpcscn":
-        return "kind=grpcscn steps=%d" % len(c["steps"])
+        return "kind=grpcscn steps=%s" % ",".join(
+            "st%d" % s["status"] + ("" if s.get("pre", "none") in ("none", "ok") else "+pre:" + s["pre"]) +
+            ("" if s.get("post", "none") in ("none", "pass") else "+post:" + s["post"]) for s in c["steps"])
     return "kind=%s" % k
 
 
@@ -134,7 +140,7 @@ def _finish(v, rows, tr, what):
 def run(tier, v):
     thorough = tier == "thorough"
     sfx = "_big" if thorough else ""
-    negs = ["swap", "grpc_internal", "double", "id_local", "depth_off", "no_empty"]
+    negs = ["swap", "grpc_internal", "double", "double_post", "id_local", "depth_off", "no_empty"]
     # 1. design level + negative controls + generator, concurrently
     d = vlib.scratch()
     cases = os.path.join(d, "cases.ndjson")
@@ -199,7 +205,9 @@ def run(tier, v):
         "distinct_nontrivial": nontrivial,
         "rule": "complete case space generated by TLC (SampleCodingGen): HTTP statuses 200..599 + refused/reset/timeout/truncated, "
                 "gRPC codes 0..17,99 + client-side refused/timeout, unknown method / ill-typed payload, invalid ammo, {tagged, untagged} x auto-tag settings x "
-                "URI shapes (0-4 segments, trailing slash, 3 query forms) x formats, scenario shots over step outcomes; "
+                "URI shapes (0-4 segments, trailing slash, 3 query forms) x formats, scenario shots = all sequences (<= 2, thorough 3) "
+                "of step variants {exchange outcomes; postprocessor none/pass/assertfail/extractfail x 200/404/500; preprocessor "
+                "ok/fail; template failure; sleep} for the http and the grpc scenario gun; "
                 "non-trivial = anything but the plain 200 exchange",
         "cases_by_kind": kinds,
         "case_trace_states": tr1.distinct, "ids_trace_states": tr2.distinct,
@@ -209,6 +217,8 @@ def run(tier, v):
     return "model_checking", cov, [
         "net code decided as zero / non-zero only; proto 0 demanded when no status line arrived",
         "scenario samples: first tag must be <scenario>.<step>; extra tags (the guns add __EMPTY__ on a failed step) tolerated",
+        "scenario step that fails before sending (preprocessor / template): exactly one sample, proto 0, net not pinned; step whose "
+        "postprocessor fails after a complete response: exactly one sample, proto = status received, net not pinned",
         "gRPC: ammo always tagged; unknown method / ill-typed payload: only 'exactly one sample' is decided",
         "timeout case uses response-header-timeout 150 ms against a target that never answers (one-sided: no upper bound asserted)",
         "trusted: harness recorder (harness/cmd/vdrive/samplecoding.go, httpwire_common.go, harness/internal/targets)",
